@@ -44,7 +44,7 @@ def iccma(n, atts, labels=None):
 class C11(Property):
     id = "C11"
     families = ["multi"]
-    rule = ("frameworks of 20-60 arguments (quick) / up to 300 (thorough), structured sparse (rings, chains, random blocks, bridges), well-founded ones (trees / sparse DAGs of 18-120 arguments, 12 arguments queried) plus small ones that are also "
+    rule = ("frameworks of 20-60 arguments (quick) / up to 300 (thorough), structured sparse (rings, chains, random blocks, bridges), well-founded ones (trees / sparse DAGs of 18-120 arguments, 12 arguments queried) plus small ones (random and unions of semantic gadgets, 160 per quick run) whose statuses are also "
             "judged by the reference deciders; for each: argument permutation + attack-line permutation and duplication, disjoint union with another framework "
             "(with and without stable extension), and the cross-semantics relations (GR in ID in PR, DS implies DC when an extension exists, ST=SST=STG when "
             "a stable extension exists) on the answers of all seven solvers; non-trivial = framework with >= 10 arguments")
@@ -54,12 +54,13 @@ class C11(Property):
         lines = []
         self.groups = []
         nbase = 36 if tier == "quick" else 1500
-        for g in range(nbase):
-            if g % 4 == 0:
-                n, atts = gen.random_framework(rng, 8)
+        nsmall = 160 if tier == "quick" else 4000   # additional small frameworks: every status is also judged
+        for g in range(nbase + nsmall):
+            if g >= nbase or g % 4 == 0:
+                n, atts = gen.random_framework(rng, 8) if rng.random() < 0.5 else gen.gadget_union(rng, 8)
                 if n == 0:
                     n, atts = 1, []
-            elif g % 4 == 1:
+            elif g < nbase and g % 4 == 1:
                 # well-founded frameworks (acyclic: trees, chains with branches, sparse DAGs): one large component whose
                 # grounded extension is the unique extension of every semantics
                 n = rng.randint(18, 60) if tier == "quick" else rng.choice([18, 30, 60, 120])
@@ -74,7 +75,7 @@ class C11(Property):
                 size = rng.randint(20, 60) if tier == "quick" else rng.choice([20, 40, 80, 150, 300])
                 n, atts = big_framework(rng, size)
             heavy = n > 80
-            args = rng.sample(range(n), min(n, (12 if g % 4 == 1 else 4) if n > 9 else n))
+            args = rng.sample(range(n), min(n, (12 if (g < nbase and g % 4 == 1) else 4) if n > 9 else n))
             qs = []
             for sem in SEMS:
                 if heavy and sem in ("SST", "STG", "ID"):
